@@ -177,6 +177,12 @@ def main(root, repo, tier, replay):
             p[0] = n >> 4
             p[1] = (n & 0xF) << 4
             f.write("zero1023:%d %s\n" % (n, frame(p).hex()))
+            # short payloads (too short for any message body) must classify by number as well
+            for ln, fillb in ((2, 0x00), (8, 0xFF), (21, 0x00)):
+                q = bytearray([fillb] * ln)
+                q[0] = n >> 4
+                q[1] = (q[1] & 0x0F) | ((n & 0xF) << 4)
+                f.write("short%d:%d %s\n" % (ln, n, frame(q).hex()))
         tdd = os.path.join(repo, "testdata")
         for name in sorted(os.listdir(tdd)):
             m = re.match(r"msg(\d+)_(\d+)\.rtcm$", name)
@@ -191,7 +197,9 @@ def main(root, repo, tier, replay):
 
     def build_and_run(w, feats):
         tdir = os.path.join(work, "w%d" % w)
-        cmd = ["cargo", "build", "--release", "--offline", "--no-default-features", "-j", str(jobs), "--features", ",".join(feats + ["std"])]
+        # std + serde: together with the no_std probe (no serde) the quick tier sees every single feature
+        # with serde off and on
+        cmd = ["cargo", "build", "--release", "--offline", "--no-default-features", "-j", str(jobs), "--features", ",".join(feats + ["std", "serde"])]
         rc, out = run(cmd, drv, env(tdir))
         if rc != 0:
             return None, out
@@ -223,7 +231,7 @@ def main(root, repo, tier, replay):
             for f in futs:
                 for n, (got, out) in f.result():
                     transitions += 1
-                    cfgj = {"features": ["msg%d" % n], "serde": False}
+                    cfgj = {"features": ["msg%d" % n, "std"], "serde": True}
                     if got is None:
                         errs = [l for l in out.splitlines() if l.startswith("error")]
                         violations.append(("driver-build:msg%d" % n, "driver does not build/run with only msg%d: %s" % (n, " | ".join(errs[:3]) or "\n".join(out.splitlines()[-4:])), {"kind": "feature_config", "config": cfgj, "step": "driver", "output_tail": "\n".join(out.splitlines()[-25:])}))
@@ -308,7 +316,7 @@ def main(root, repo, tier, replay):
         "coverage": {
             "states": len(cfgs), "transitions": transitions, "traces_validated_against_impl": outcomes.get("single-feature-build-decodes-like-full-build", 0),
             "evaluations": transitions, "distinct_nontrivial": len(cfgs),
-            "rule": "the finite configuration space {empty, each msgNNNN alone, all_msgs} x {no std} is enumerated completely: each configuration is built without std as a #![no_std] staticlib with its own panic handler (any std in the graph collides with it); thorough: additionally cargo check of every configuration with serde off and on; a driver built against every single-feature selection decodes 4096 zero frames (one per message number), all testdata frames and ones/counter frames per supported number and is compared line by line with the all_msgs build. states = configurations; transitions = cargo builds / driver comparisons",
+            "rule": "the finite configuration space {empty, each msgNNNN alone, all_msgs} x {no std} is enumerated completely: each configuration is built without std as a #![no_std] staticlib with its own panic handler (any std in the graph collides with it); thorough: additionally cargo check of every configuration with serde off and on; a driver built (with std and serde) against every single-feature selection decodes 4096 zero frames and 3 x 4096 short frames (one per message number), all testdata frames and ones/counter frames per supported number and is compared line by line with the all_msgs build. states = configurations; transitions = cargo builds / driver comparisons",
             "exhaustive": True,
             "bounds": {"configurations": len(cfgs), "driver_configurations": len(drive), "nostd_probe_configurations": len(probe_cfgs), "message_features": len(nums)},
             "outcomes": outcomes, "distinct_outcomes": len(outcomes),
